@@ -284,7 +284,7 @@ fn explore_model_accumulation(opts: &Opts) -> Local {
         l.validated += 1;
         // run the calls; `deposit_only`: clear every parameter's gradient right before that call, so
         // that what remains afterwards is the deposit of that call alone
-        let run = |deposit_only: Option<usize>| -> Result<Vec<Option<Vec<Float>>>, String> {
+        let run_seq = |seq: &Vec<u8>, deposit_only: Option<usize>| -> Result<Vec<Option<Vec<Float>>>, String> {
             run_catch(|| {
                 let store = ActStore::new(cfgs);
                 let mut layers = build_layers(cfgs, &store, 4 + var);
@@ -323,6 +323,7 @@ fn explore_model_accumulation(opts: &Opts) -> Local {
                 handles.iter().map(|h| h.gradient().as_ref().map(|g| g.values().to_vec())).collect()
             })
         };
+        let run = |deposit_only: Option<usize>| run_seq(seq, deposit_only);
         l.transitions += 1;
         let total = match run(None) {
             Ok(t) => t,
@@ -344,6 +345,31 @@ fn explore_model_accumulation(opts: &Opts) -> Local {
                     return;
                 }
                 Ok(dep) => {
+                    // what a call deposits does not depend on the passes that ran before it: the same call
+                    // after the forwards alone (all earlier backward and penalty passes removed) deposits
+                    // the same
+                    let mut reduced: Vec<u8> = seq[..k].iter().cloned().filter(|c| *c == 0).collect();
+                    reduced.push(*c);
+                    let rk = reduced.len() - 1;
+                    l.transitions += 1;
+                    match run_seq(&reduced, Some(rk)) {
+                        Err(m) => {
+                            l.violation("model-accumulation", case(), format!("panicked: {}", m));
+                            return;
+                        }
+                        Ok(alone) => {
+                            let same = alone.len() == dep.len()
+                                && alone.iter().zip(&dep).all(|(a, b)| match (a, b) {
+                                    (None, None) => true,
+                                    (Some(a), Some(b)) => a.len() == b.len() && a.iter().zip(b).all(|(p, q)| p.to_bits() == q.to_bits()),
+                                    _ => false,
+                                });
+                            if !same {
+                                l.violation("model-accumulation", case(), format!("call {} deposits {:?} after the earlier passes, but {:?} when only the forward passes ran before it", k, dep, alone));
+                                return;
+                            }
+                        }
+                    }
                     for (e, d) in expect.iter_mut().zip(dep) {
                         if let Some(d) = d {
                             *e = Some(match e.take() {
